@@ -14,7 +14,8 @@ PROPS_V = "props/C12.v"
 TABLES = ()
 RULE = ("correspondence: model relative/exact vs parser.base.relative/exact_import on ALL ordered pairs of module paths of "
         "depth <= 3 over {a,b,c} (thorough: depth <= 4), and the model's written()/py_resolve vs the imports the real "
-        "generator emits for generated module sets; falsifier: schema sets with dotted definition names -> modular "
+        "generator emits for generated module sets, and Layout.layout (which key becomes a package) vs the files the real generator "
+        "writes for EVERY set of <= 3 (thorough: 4) module keys of depth <= 3 over two names plus random sets; falsifier: schema sets with dotted definition names -> modular "
         "generate() -> every ImportFrom and every qualified use resolved statically by Python's rule against the written "
         "files. non-trivial = importer and reference are in different modules")
 TRUSTED = ["Python's relative-import rule is modelled by py_resolve (package of a file; k dots drop k-1 segments)",
